@@ -14,7 +14,7 @@
    the running interpreter for every code point on every run (harness/props/c18.py, op "cps"). *)
 From Coq Require Import ZArith List Bool.
 Import ListNotations.
-From Urwid Require Import PyBase.
+From Urwid Require Import PyBase ColourBase.
 Open Scope Z_scope.
 
 Definition str := list Z.
@@ -155,3 +155,9 @@ Definition fmt_x (n : Z) : str := fmt_base 16 n.
 Definition zero_pad (w : Z) (ds : str) : str := repeat 48 (Z.to_nat (w - zlen ds)) ++ ds.
 Definition fmt_x_pad (w n : Z) : str :=
   if n <? 0 then 45 :: zero_pad (w - 1) (digits_of 16 (- n)) else zero_pad w (digits_of 16 n).
+
+(* `p in d` / `d[p]` for the dictionary of setting names; s * b for a bool b *)
+Fixpoint find_setting (l : list (str * setting)) (p : str) : option setting :=
+  match l with [] => None | (n, s) :: r => if str_eqb n p then Some s else find_setting r p end.
+
+Definition times (s : str) (b : bool) : str := if b then s else [].
